@@ -1,10 +1,12 @@
 package main
 
 import (
+	"bufio"
 	"encoding/json"
 	"strings"
 
 	"verif/harness/hx"
+	"verif/harness/rt"
 )
 
 // c05.text — configuration text (route commands with white-space variation, comments, blank lines, \r\n, a
@@ -12,7 +14,16 @@ import (
 // dump, vs the model's `parse` + `newTable`. The impl line carries the oracles for strconv.ParseFloat,
 // url.Parse+String and glob.Compile evaluated on every token of the text.
 type textIn struct {
-	Text string `json:"text"`
+	Text string `json:"text,omitempty"`
+	// Defs != nil: the text is these definitions written by the varier seeded with VSeed at Level (white-space
+	// variation, comments, blank lines, CRLF; line Mal, if >= 0, gets one malformation). Run renders the text — a
+	// shrunk input stays consistent — and, when nothing is malformed and the command language can carry every
+	// definition, ships them (`want`): the specification then runs the spec machine on the commands *written*,
+	// not on what a parser (the model's or Go's) made of the text.
+	Defs  []rt.Def `json:"defs,omitempty"`
+	VSeed uint64   `json:"vseed,omitempty"`
+	Level int      `json:"level,omitempty"`
+	Mal   *int     `json:"mal,omitempty"`
 	// Long > 0: the harness inserts, before line LongAt (0-based), a comment line of exactly Long bytes
 	// (keeps the JSON of the case small).
 	Long   int `json:"long,omitempty"`
@@ -47,8 +58,30 @@ func runText(raw json.RawMessage) (interface{}, error) {
 	if err := json.Unmarshal(raw, &in); err != nil {
 		return nil, err
 	}
+	var want []rt.Def
+	if in.Defs != nil {
+		for i := range in.Defs {
+			in.Defs[i].Fill()
+		}
+		mal := -1
+		if in.Mal != nil {
+			mal = *in.Mal
+		}
+		v := &varier{r: hx.NewRand(in.VSeed, "text"), level: in.Level}
+		in.Text = v.text(in.Defs, mal)
+		// (a line of bufio.MaxScanTokenSize bytes or more makes Parse refuse the whole text: no table to compare)
+		if mal < 0 && expressibleAll(in.Defs) && in.Long < bufio.MaxScanTokenSize {
+			want = v.effs
+		}
+	}
 	text := in.full()
 	out := newTable(text)
+	if in.Defs != nil {
+		out["text"] = in.Text
+		if want != nil {
+			out["want"] = map[string]interface{}{"defs": want}
+		}
+	}
 	pf, urls, globs := textOracle(in.Text)
 	out["oracle"] = map[string]interface{}{"pf": pf, "url": urls, "glob": globs}
 	return out, nil
@@ -63,18 +96,19 @@ func genText(r *hx.Rand, i int) interface{} {
 	if r.Chance(1, 10) {
 		malformDef(r, &ds[r.Intn(len(ds))], false)
 	}
-	v := &varier{r: r, level: r.Intn(3)}
-	mal := -1
+	in := textIn{Defs: ds, VSeed: r.U64() % 1000000, Level: r.Intn(3)}
 	switch {
 	case r.Chance(1, 4):
-		mal = r.Intn(len(ds))
+		mal := r.Intn(len(ds))
+		in.Mal = &mal
 	case r.Chance(1, 30):
-		ds[r.Intn(len(ds))].WText = r.Pick(nonFinite) // accepted by Go, outside the model: own class
+		k := r.Intn(len(ds))
+		ds[k].WText = r.Pick(nonFinite) // accepted by strconv.ParseFloat, refused by the table code (validWeight)
+		ds[k].Fill()
 	}
-	in := textIn{Text: v.text(ds, mal)}
 	if r.Chance(1, 150) {
 		in.Long = []int{65534, 65535, 65536, 65537, 70000}[r.Intn(5)]
-		in.LongAt = r.Intn(strings.Count(in.Text, "\n") + 2)
+		in.LongAt = r.Intn(2*len(ds) + 2)
 	}
 	return in
 }
